@@ -276,7 +276,7 @@ def route_rules(crate, level):
                 same = t == ("multi", acc) or (t[0] == "call" and v.whole_defs(acc) and v.whole_defs(acc)[0][0] == "call" and v.whole_defs(acc)[0][1] == t[1])
                 if not same:
                     out.append(fnd("C16.ROUTE", v, "the parser can return attributes other than the merged ones (what the duplicate / conflict checks saw is not what is used)", bb, fmt(t)))
-    merges = [bb for bb, c in v.calls() if c.fn is not None and npath(c.path) == name + "::merge"]
+    merges = [bb for bb, c in v.calls() if c.fn is not None and npath(c.path) == npath(name + "::merge")]
     ob += 1
     if not merges:
         out.append(fnd("C16.ROUTE", v, "the parser never calls merge: duplicates inside one #[deserr(..)] are not detected"))
@@ -352,7 +352,7 @@ def read_rules(crate, level):
     out = []
     ob = 3
     parse = [bb for bb, c in v.calls() if c.fn is not None and c.path == "syn::Attribute::parse_args" and name in c.full]
-    merges = [bb for bb, c in v.calls() if c.fn is not None and npath(c.path) == name + "::merge"]
+    merges = [bb for bb, c in v.calls() if c.fn is not None and npath(c.path) == npath(name + "::merge")]
     nexts = [bb for bb, c in v.calls() if c.fn is not None and c.name == "next" and c.trait and erase_generics(c.trait) == "std::iter::Iterator"]
     if len(parse) != 1 or len(merges) != 1 or len(nexts) != 1:
         return [fnd("C16.READ", v, "expected one loop with one parse_args and one merge (found %d/%d/%d)" % (len(nexts), len(parse), len(merges)))], ob
